@@ -145,9 +145,13 @@ pub enum FileClass {
 }
 
 pub fn classify_file(bytes: &[u8], config: sl::Config) -> FileClass {
+    classify_file_verify(bytes, config, false)
+}
+
+pub fn classify_file_verify(bytes: &[u8], config: sl::Config, verify: bool) -> FileClass {
     match std::str::from_utf8(bytes) {
         Err(_) => FileClass::Error,
-        Ok(s) => match lib_format(s, config) {
+        Ok(s) => match crate::cli::lib_format_full(s, config, (None, None), verify) {
             None => FileClass::Error,
             Some(q) if q == s => FileClass::Formatted,
             Some(q) => FileClass::Differs(q),
@@ -446,7 +450,7 @@ fn c13_oracle(case: &CliCase, run: &CliRun) -> Verdict {
     let mut differing: BTreeSet<String> = BTreeSet::new();
     let mut classes = BTreeSet::new();
     for (rel, printed) in &sel {
-        match classify_file(&case.files[rel], config) {
+        match classify_file_verify(&case.files[rel], config, args.verify) {
             FileClass::Error => {
                 any_error = true;
                 classes.insert("error");
@@ -560,7 +564,7 @@ fn c14_oracle(case: &CliCase, run: &CliRun) -> Verdict {
             continue;
         }
         let fault = faults.get(basename(rel)).map(|s| s.as_str());
-        let class = classify_file(&before.bytes, config);
+        let class = classify_file_verify(&before.bytes, config, args.verify);
         match (&class, fault) {
             // formatting never starts for a file that cannot be read; injected failures at the format point
             (FileClass::Error, _) | (_, Some("panic")) | (_, Some("verify")) => {
@@ -624,10 +628,816 @@ pub static C14: CliProp = CliProp {
     extra: None,
 };
 
+
+// ------------------------------------------------------------------------------------------
+// C18: diffs reconstruct the formatted file
+
+/// lines with their terminators (the unit `similar::TextDiff::from_lines` works on)
+fn lines_keepends(s: &str) -> Vec<String> {
+    // a line ends at "\r\n", "\n" or a lone "\r" (the tokenisation of `similar::TextDiff::from_lines`)
+    let b = s.as_bytes();
+    let mut out = Vec::new();
+    let mut start = 0;
+    let mut i = 0;
+    while i < b.len() {
+        if b[i] == b'\n' {
+            out.push(s[start..=i].to_string());
+            start = i + 1;
+        } else if b[i] == b'\r' && b.get(i + 1) != Some(&b'\n') {
+            out.push(s[start..=i].to_string());
+            start = i + 1;
+        }
+        i += 1;
+    }
+    if start < b.len() {
+        out.push(s[start..].to_string());
+    }
+    out
+}
+
+/// applies a unified diff (as printed by `--output-format unified`) to `original`
+pub fn apply_unified(original: &str, diff: &str) -> Result<String, String> {
+    let old = lines_keepends(original);
+    let mut out: Vec<String> = Vec::new();
+    let mut cursor = 0usize; // index into old
+    let dl_owned = lines_keepends(diff);
+    let dl: Vec<&str> = dl_owned.iter().map(|l| l.as_str()).collect();
+    let mut i = 0;
+    // header
+    while i < dl.len() && !dl[i].starts_with("@@") {
+        i += 1;
+    }
+    while i < dl.len() {
+        let h = dl[i];
+        if !h.starts_with("@@") {
+            return Err(format!("expected hunk header, got {:?}", h));
+        }
+        // @@ -a,b +c,d @@
+        let body = h.trim_start_matches("@@").trim();
+        let old_part = body.split_whitespace().next().ok_or("bad hunk header")?;
+        let nums = old_part.trim_start_matches('-');
+        let (a, b) = match nums.split_once(',') {
+            Some((a, b)) => (a.parse::<usize>().map_err(|e| e.to_string())?, b.parse::<usize>().map_err(|e| e.to_string())?),
+            None => (nums.parse::<usize>().map_err(|e| e.to_string())?, 1),
+        };
+        let start = if b == 0 { a } else { a.saturating_sub(1) };
+        if start < cursor || start > old.len() {
+            return Err(format!("hunk start {start} out of order (cursor {cursor}, {} lines)", old.len()));
+        }
+        out.extend(old[cursor..start].iter().cloned());
+        cursor = start;
+        i += 1;
+        while i < dl.len() && !dl[i].starts_with("@@") {
+            let l = dl[i];
+            let next_is_marker = dl.get(i + 1).map_or(false, |n| n.starts_with("\\ No newline"));
+            let mut text = l[1.min(l.len())..].to_string();
+            if next_is_marker {
+                // the line has no terminator in the file
+                if text.ends_with('\n') {
+                    text.pop();
+                    if text.ends_with('\r') {
+                        // a CR before the LF belongs to the diff's own line break only if the file line had none;
+                        // similar prints the line as is, then "\n\\ No newline": the CR is content
+                    }
+                }
+            }
+            match l.chars().next() {
+                Some(' ') => {
+                    if cursor >= old.len() || old[cursor] != text {
+                        return Err(format!("context line does not match at old line {}: {:?} vs {:?}", cursor + 1, old.get(cursor), text));
+                    }
+                    out.push(text);
+                    cursor += 1;
+                }
+                Some('-') => {
+                    if cursor >= old.len() || old[cursor] != text {
+                        return Err(format!("removed line does not match at old line {}: {:?} vs {:?}", cursor + 1, old.get(cursor), text));
+                    }
+                    cursor += 1;
+                }
+                Some('+') => out.push(text),
+                Some('\\') => {}
+                _ => return Err(format!("unexpected diff line {:?}", l)),
+            }
+            i += 1;
+        }
+    }
+    out.extend(old[cursor..].iter().cloned());
+    Ok(out.concat())
+}
+
+/// applies the JSON mismatches (line ranges, 0-based, inclusive) to `original`
+pub fn apply_json(original: &str, mismatches: &serde_json::Value) -> Result<String, String> {
+    let mut lines = lines_keepends(original);
+    let mut ms: Vec<&serde_json::Value> = mismatches.as_array().ok_or("mismatches is not an array")?.iter().collect();
+    // bottom-up so that earlier line numbers stay valid
+    ms.sort_by_key(|m| std::cmp::Reverse(m["original_start_line"].as_u64().unwrap_or(0)));
+    for m in ms {
+        let start = m["original_start_line"].as_u64().ok_or("no original_start_line")? as usize;
+        let end = m["original_end_line"].as_u64().ok_or("no original_end_line")? as usize;
+        let original_text = m["original"].as_str().ok_or("no original")?;
+        let expected = m["expected"].as_str().ok_or("no expected")?;
+        let new_lines = lines_keepends(expected);
+        if original_text.is_empty() {
+            // insertion before `start`
+            if start > lines.len() {
+                return Err(format!("insertion at line {start} beyond the end ({} lines)", lines.len()));
+            }
+            lines.splice(start..start, new_lines);
+        } else {
+            if end >= lines.len() || start > end {
+                return Err(format!("range {start}..={end} outside the file ({} lines)", lines.len()));
+            }
+            let current: String = lines[start..=end].concat();
+            if current != original_text {
+                return Err(format!("`original` of the mismatch does not equal lines {start}..={end} of the file: {:?} vs {:?}", original_text.chars().take(60).collect::<String>(), current.chars().take(60).collect::<String>()));
+            }
+            lines.splice(start..=end, new_lines);
+        }
+    }
+    Ok(lines.concat())
+}
+
+fn gen_c18(t: &mut Tape, labels: &mut Vec<&'static str>) -> Option<CliCase> {
+    use crate::gen::{generate, GenOpts};
+    let mut case = CliCase::default();
+    case.files.insert(".editorconfig".into(), b"root = true\n".to_vec());
+    let opts = gen_optcfg(t, false);
+    let config = opts.apply(sl::Config::default());
+    let kind = t.pick(10);
+    let k = t.pick(40);
+    let mut src = match kind {
+        0 | 1 => messy_program(k),
+        2 | 3 | 4 => generate(t, Syntax::Lua51, GenOpts { budget: 40, max_stmts: 8, ..GenOpts::stmt_comments() }).source,
+        5 => {
+            // formatted under another configuration: many separated hunks
+            labels.push("pair:other-configuration");
+            let other = sl::Config { column_width: 30, indent_type: sl::IndentType::Spaces, indent_width: 3, quote_style: sl::QuoteStyle::ForceSingle, ..sl::Config::default() };
+            let base = format!("{}{}{}", messy_program(k), messy_program(k + 1), crate::cli::PROBE);
+            lib_format(&base, other).unwrap_or(base)
+        }
+        6 => {
+            labels.push("pair:already-formatted");
+            let base = messy_program(k);
+            lib_format(&base, config).unwrap_or(base)
+        }
+        7 => {
+            labels.push("pair:requires");
+            format!("local zz = require(\"zz\")\nlocal mm = require(\"mm\")\nlocal aa = require(\"aa\")\nlocal bb = require(\"bb\")\n\n{}", messy_program(k))
+        }
+        8 => {
+            labels.push("pair:blank-lines");
+            format!("\n\n\nlocal a = 1\n\n\n\n\nlocal b = 2\n\n\n\nreturn a\n\n\n")
+        }
+        _ => format!("{}\nlocal   last_line   =   1", messy_program(k)),
+    };
+    match t.pick(8) {
+        0 => {
+            src = src.replace("\r\n", "\n").replace('\n', "\r\n");
+            labels.push("input:crlf");
+        }
+        1 => {
+            while src.ends_with('\n') || src.ends_with('\r') {
+                src.pop();
+            }
+            labels.push("input:no-final-newline");
+        }
+        2 => {
+            src = format!("local   first_line   =   0\n{src}");
+            labels.push("input:change-on-first-line");
+        }
+        _ => {}
+    }
+    case.files.insert("f.lua".into(), src.into_bytes());
+    let fmt = ["Unified", "Json", "Standard", "Summary"][t.pick(4)];
+    labels.push(match fmt {
+        "Unified" => "format:unified",
+        "Json" => "format:json",
+        "Standard" => "format:standard",
+        _ => "format:summary",
+    });
+    let mut argv = vec!["--check".to_string(), "--output-format".into(), fmt.into(), "--color".into(), "Never".into()];
+    argv.extend(opts.to_flags());
+    argv.push("f.lua".into());
+    case.argv = argv;
+    Some(case)
+}
+
+fn c18_oracle(case: &CliCase, run: &CliRun) -> Verdict {
+    let args = parse_args(&case.argv);
+    let config = args.opts.apply(sl::Config::default());
+    let Ok(original) = std::str::from_utf8(&case.files["f.lua"]) else { return Verdict::Skip("not UTF-8") };
+    let Some(formatted) = lib_format(original, config) else { return Verdict::Skip("input does not parse") };
+    let stdout = String::from_utf8_lossy(&run.stdout).to_string();
+    let differs = formatted != original;
+    if let Some(d) = tree_unchanged(run) {
+        return Verdict::Fail(format!("--check changed the file system: {d}"));
+    }
+    let printed = match args.output_format.as_str() {
+        "summary" => stdout.lines().any(|l| strip_ansi(l) == "f.lua"),
+        _ => !stdout.trim().is_empty(),
+    };
+    if printed != differs {
+        return Verdict::Fail(format!("a diff was {} although the file {} its formatted text", if printed { "printed" } else { "not printed" }, if differs { "differs from" } else { "equals" }));
+    }
+    if run.code != Some(if differs { 1 } else { 0 }) {
+        return Verdict::Fail(format!("exit status {:?} although the file {} its formatted text", run.code, if differs { "differs from" } else { "equals" }));
+    }
+    if !differs {
+        return Verdict::Pass { nontrivial: false };
+    }
+    match args.output_format.as_str() {
+        "unified" => match apply_unified(original, &stdout) {
+            Ok(r) if r == formatted => Verdict::Pass { nontrivial: true },
+            Ok(r) => {
+                let (a, b) = crate::oracle::first_line_diff(&formatted, &r);
+                Verdict::Fail(format!("applying the unified diff does not give the formatted text: expected line {:?}, got {:?}", a, b))
+            }
+            Err(e) => Verdict::Fail(format!("the unified diff does not apply to the file: {e}")),
+        },
+        "json" => {
+            let Some(line) = stdout.lines().next() else { return Verdict::Fail("no JSON output".into()) };
+            let Ok(v) = serde_json::from_str::<serde_json::Value>(line) else { return Verdict::Fail("JSON output does not parse".into()) };
+            if v["file"].as_str() != Some("f.lua") {
+                return Verdict::Fail(format!("JSON output names file {:?}", v["file"]));
+            }
+            match apply_json(original, &v["mismatches"]) {
+                Ok(r) if r == formatted => Verdict::Pass { nontrivial: true },
+                Ok(r) => {
+                    let (a, b) = crate::oracle::first_line_diff(&formatted, &r);
+                    Verdict::Fail(format!("applying the JSON mismatches does not give the formatted text: expected line {:?}, got {:?}", a, b))
+                }
+                Err(e) => Verdict::Fail(format!("the JSON mismatches do not apply to the file: {e}")),
+            }
+        }
+        _ => Verdict::Pass { nontrivial: true },
+    }
+}
+
+pub static C18: CliProp = CliProp {
+    id: "C18",
+    rule: "E3: one file per case, (original, formatted) pairs arising from programs: hand-messy and grammar-generated programs, text formatted under another configuration (many separated hunks), already formatted text, unsorted requires with --sort-requires (pure moves), runs of blank lines (pure deletions), a change on the first / last line, CRLF input, no final newline; random format flags; --check with unified / json / standard / summary output. Oracle: the checker's own unified-diff applier (hunks, context verification, `\\ No newline at end of file`) applied to the original gives exactly the library's formatted text; the JSON mismatches applied bottom-up as line-range replacements (`original == \"\"` = insertion before original_start_line; `original` must equal the replaced lines) give the same; summary lists the file iff it differs; for every format a diff is printed iff the file differs, and the exit status agrees. Non-trivial: the file differs from its formatted text.",
+    gen_case: gen_c18,
+    oracle: c18_oracle,
+    quick_cases: 16_000,
+    thorough_cases: 300_000,
+    tape_len: 500,
+    assumptions: &["JSON line numbers are 0-based and inclusive, as emitted by output_diff_json", "the standard (pretty) format is only checked for 'printed iff different'"],
+    extra: None,
+};
+
+
+// ------------------------------------------------------------------------------------------
+// C17: stdin mode
+
+const IGNORE_FILES: [&str; 5] = [
+    "ignored.lua\n",
+    "gen/\n",
+    "*.gen.lua\n!keep.gen.lua\n",
+    "# comment\n\n/top.lua\nsub/inner.lua\n",
+    "**/deep.lua\nvendor/**\n",
+];
+const STDIN_PATHS: [&str; 12] = [
+    "ignored.lua", "other.lua", "gen/a.lua", "a.gen.lua", "keep.gen.lua", "top.lua", "sub/top.lua", "sub/inner.lua", "x/deep.lua", "vendor/lib/m.lua", "sub/ignored.lua", "not/there/file.lua",
+];
+
+/// is `path` (relative to cwd) ignored for the purpose of `--respect-ignores` on an explicitly named path?
+/// Only ONE ignore file is consulted: the one in the path's directory, else the one in the working directory.
+pub fn explicit_path_ignored(case: &CliCase, path: &str) -> bool {
+    use crate::ignore_model::*;
+    let rel = join_rel(&case.cwd, path);
+    let parent = match rel.rsplit_once('/') {
+        Some((p, _)) => p.to_string(),
+        None => String::new(),
+    };
+    let in_parent = if parent.is_empty() { ".styluaignore".to_string() } else { format!("{parent}/.styluaignore") };
+    let cwd_file = if case.cwd.is_empty() { ".styluaignore".to_string() } else { format!("{}/.styluaignore", case.cwd) };
+    let (file, root) = if case.files.contains_key(&in_parent) {
+        (in_parent, parent)
+    } else if case.files.contains_key(&cwd_file) {
+        (cwd_file, case.cwd.clone())
+    } else {
+        return false;
+    };
+    let text = String::from_utf8_lossy(&case.files[&file]).to_string();
+    let patterns = parse_ignore(&text);
+    // path relative to the ignore file's directory when it lies below it, else as given
+    let relative = if root.is_empty() {
+        rel.clone()
+    } else if let Some(r) = rel.strip_prefix(&format!("{root}/")) {
+        r.to_string()
+    } else {
+        rel.clone()
+    };
+    match_path_or_parents(&patterns, &relative) == Match::Ignore
+}
+
+fn gen_c17(t: &mut Tape, labels: &mut Vec<&'static str>) -> Option<CliCase> {
+    use crate::gen::{generate, GenOpts};
+    let mut case = CliCase::default();
+    case.files.insert(".editorconfig".into(), b"root = true\n".to_vec());
+    case.files.insert("other.lua".into(), messy_program(1).into_bytes());
+    case.files.insert("sub/inner.lua".into(), messy_program(2).into_bytes());
+    if t.chance(160) {
+        case.files.insert(".styluaignore".into(), IGNORE_FILES[t.pick(IGNORE_FILES.len())].as_bytes().to_vec());
+        labels.push("styluaignore");
+    }
+    if t.chance(40) {
+        case.files.insert("sub/.styluaignore".into(), b"inner.lua\n".to_vec());
+    }
+    let opts = gen_optcfg(t, true);
+    let k = t.pick(50);
+    let stdin: Vec<u8> = match t.pick(12) {
+        0 | 1 | 2 => messy_program(k).into_bytes(),
+        3 | 4 => generate(t, opts.syntax.unwrap_or(Syntax::Lua51), GenOpts { budget: 40, ..GenOpts::stmt_comments() }).source.into_bytes(),
+        5 => {
+            labels.push("stdin:invalid");
+            format!("local x = = {k}\nprint(").into_bytes()
+        }
+        6 => {
+            labels.push("stdin:empty");
+            Vec::new()
+        }
+        7 => {
+            labels.push("stdin:whitespace");
+            b"  \n\t\n\n".to_vec()
+        }
+        8 => {
+            labels.push("stdin:crlf");
+            messy_program(k).replace('\n', "\r\n").into_bytes()
+        }
+        9 => {
+            labels.push("stdin:no-final-newline");
+            messy_program(k).trim_end().to_string().into_bytes()
+        }
+        10 => {
+            labels.push("stdin:large");
+            let mut s = String::new();
+            for i in 0..(400 + 40 * k) {
+                s.push_str(&format!("local   v{i} = {{ {i},  'x' }}\n"));
+            }
+            s.into_bytes()
+        }
+        _ => crate::cli::PROBE.as_bytes().to_vec(),
+    };
+    let mut argv = opts.to_flags();
+    if t.chance(140) {
+        argv.push("--stdin-filepath".into());
+        argv.push(STDIN_PATHS[t.pick(STDIN_PATHS.len())].into());
+        labels.push("stdin-filepath");
+    }
+    if t.chance(140) {
+        argv.push("--respect-ignores".into());
+        labels.push("respect-ignores");
+    }
+    if t.chance(50) {
+        argv.push("--check".into());
+        argv.push("--output-format".into());
+        argv.push(["Standard", "Unified", "Json", "Summary"][t.pick(4)].into());
+        labels.push("check");
+    }
+    if t.chance(40) {
+        argv.push("--verify".into());
+    }
+    if t.chance(40) {
+        argv.push("--range-start".into());
+        argv.push((t.pick(60)).to_string());
+        argv.push("--range-end".into());
+        argv.push((60 + t.pick(200)).to_string());
+        labels.push("range");
+    }
+    if t.chance(40) {
+        argv.push("--no-editorconfig".into());
+    }
+    argv.push("-".into());
+    case.argv = argv;
+    case.stdin = Some(stdin);
+    Some(case)
+}
+
+fn c17_oracle(case: &CliCase, run: &CliRun) -> Verdict {
+    let args = parse_args(&case.argv);
+    let config = args.opts.apply(sl::Config::default());
+    let input = case.stdin.clone().unwrap_or_default();
+    if let Some(d) = tree_unchanged(run) {
+        return Verdict::Fail(format!("stdin mode changed the file system: {d}"));
+    }
+    let Ok(text) = String::from_utf8(input.clone()) else { return Verdict::Skip("stdin is not UTF-8") };
+    let skip = args.respect_ignores && args.stdin_filepath.as_ref().map_or(false, |p| explicit_path_ignored(case, p));
+    let expected: Option<String> = if skip { Some(text.clone()) } else { crate::cli::lib_format_full(&text, config, args.range, args.verify) };
+    if args.check {
+        // diff mode on stdin: exit status and "printed iff different"
+        return match &expected {
+            None => {
+                let body: String = String::from_utf8_lossy(&run.stdout).lines().filter(|l| { let p = strip_ansi(l); !(p.starts_with('!') || p.starts_with('✓') || p.starts_with('✕')) }).collect::<Vec<_>>().join("\n");
+                if run.code == Some(2) && body.trim().is_empty() {
+                    Verdict::Pass { nontrivial: true }
+                } else {
+                    Verdict::Fail(format!("parse error on stdin in check mode: exit {:?}, {} bytes on stdout", run.code, run.stdout.len()))
+                }
+            }
+            Some(q) => {
+                let differs = *q != text;
+                let want = if differs { 1 } else { 0 };
+                let body: String = String::from_utf8_lossy(&run.stdout).lines().filter(|l| { let p = strip_ansi(l); !(p.starts_with('!') || p.starts_with('✓') || p.starts_with('✕')) }).collect::<Vec<_>>().join("\n");
+                if run.code != Some(want) {
+                    Verdict::Fail(format!("check mode on stdin: exit {:?}, expected {want}", run.code))
+                } else if body.trim().is_empty() == differs {
+                    Verdict::Fail(format!("check mode on stdin: diff {} although the text {}", if differs { "missing" } else { "printed" }, if differs { "differs" } else { "is formatted" }))
+                } else {
+                    Verdict::Pass { nontrivial: differs }
+                }
+            }
+        };
+    }
+    match expected {
+        None => {
+            if !run.stdout.is_empty() {
+                return Verdict::Fail(format!("parse error but {} bytes were written to stdout", run.stdout.len()));
+            }
+            if run.code != Some(2) {
+                return Verdict::Fail(format!("parse error but exit status {:?}", run.code));
+            }
+            Verdict::Pass { nontrivial: true }
+        }
+        Some(q) => {
+            if run.stdout != q.as_bytes() {
+                let got = String::from_utf8_lossy(&run.stdout).to_string();
+                let (a, b) = crate::oracle::first_line_diff(&q, &got);
+                return Verdict::Fail(format!(
+                    "stdout is not the library's output{}: expected line {:?}, got {:?} ({} vs {} bytes)",
+                    if skip { " (the path is ignored: input must pass through unchanged)" } else { "" },
+                    a,
+                    b,
+                    q.len(),
+                    got.len()
+                ));
+            }
+            if run.code != Some(0) {
+                return Verdict::Fail(format!("exit status {:?} for valid input; stderr: {}", run.code, String::from_utf8_lossy(&run.stderr).lines().next().unwrap_or("")));
+            }
+            Verdict::Pass { nontrivial: q != text || skip }
+        }
+    }
+}
+
+pub static C17: CliProp = CliProp {
+    id: "C17",
+    rule: "E3: `stylua [options] -` with generated stdin (messy / grammar-generated / probe programs, invalid text, empty, whitespace only, CRLF, no final newline, large inputs of thousands of statements), options valid with stdin: format flags, --stdin-filepath (existing, missing, ignored, re-included by a negated pattern), --respect-ignores with .styluaignore files of the supported pattern forms, --check x four output formats, --verify, ranges. Model: stdout equals the library's output for the input under the flags (with the range), byte for byte, exit 0; on a parse error stdout is empty and the exit status is 2; when --respect-ignores and --stdin-filepath name a path the ignore file of its directory (else of the working directory) ignores, stdout equals the input; in check mode a diff is printed iff the text differs and the exit status is 1/0 accordingly; the tree snapshot never changes. Non-trivial: the output differs from the input, or the input is invalid, or the path is ignored.",
+    gen_case: gen_c17,
+    oracle: c17_oracle,
+    quick_cases: 16_000,
+    thorough_cases: 300_000,
+    tape_len: 400,
+    assumptions: &["configuration files are absent (C15 covers the configuration search for stdin)", "--stdin-filepath values are relative paths"],
+    extra: None,
+};
+
+
+// ------------------------------------------------------------------------------------------
+// C16: file selection
+
+/// every directory of the tree (root-relative, "" = root) that holds a `.styluaignore`, with its patterns
+fn ignore_files(case: &CliCase) -> BTreeMap<String, Vec<crate::ignore_model::Pattern>> {
+    let mut m = BTreeMap::new();
+    for (k, v) in &case.files {
+        if basename(k) == ".styluaignore" {
+            let dir = k.rsplit_once('/').map_or(String::new(), |(d, _)| d.to_string());
+            m.insert(dir, crate::ignore_model::parse_ignore(&String::from_utf8_lossy(v)));
+        }
+    }
+    m
+}
+
+fn rel_to(dir: &str, path: &str) -> Option<String> {
+    if dir.is_empty() {
+        Some(path.to_string())
+    } else {
+        path.strip_prefix(&format!("{dir}/")).map(|s| s.to_string())
+    }
+}
+
+/// is `path` (root-relative) excluded by the hierarchy of ignore files? Deeper files take precedence.
+fn hierarchy_match(ignores: &BTreeMap<String, Vec<crate::ignore_model::Pattern>>, path: &str, is_dir: bool) -> crate::ignore_model::Match {
+    use crate::ignore_model::*;
+    // ancestor directories of `path`, deepest first
+    let mut dirs: Vec<String> = Vec::new();
+    let mut cur = path.to_string();
+    while let Some((d, _)) = cur.rsplit_once('/') {
+        dirs.push(d.to_string());
+        cur = d.to_string();
+    }
+    dirs.push(String::new());
+    for d in dirs {
+        if let Some(p) = ignores.get(&d) {
+            if let Some(r) = rel_to(&d, path) {
+                let m = match_path(p, &r, is_dir);
+                if m != Match::None {
+                    return m;
+                }
+            }
+        }
+    }
+    Match::None
+}
+
+fn glob_match(globs: &[String], rel_to_cwd: &str) -> Option<bool> {
+    // Some(true): whitelisted, Some(false): excluded by a `!` glob or by not matching any positive glob
+    use crate::ignore_model::*;
+    let text: String = globs.iter().map(|g| format!("{g}\n")).collect();
+    let pats = parse_ignore(&text);
+    // override semantics: a plain glob whitelists, a `!glob` ignores; last match wins
+    let mut m = None;
+    for p in &pats {
+        if p.matches(rel_to_cwd, false) {
+            m = Some(!p.negated);
+        }
+    }
+    match m {
+        Some(v) => Some(v),
+        None => {
+            if pats.iter().any(|p| !p.negated) {
+                Some(false)
+            } else {
+                None
+            }
+        }
+    }
+}
+
+/// The set of files (root-relative) the README says are formatted
+pub fn selection_model(case: &CliCase, args: &Args) -> (BTreeSet<String>, bool) {
+    use crate::ignore_model::Match;
+    let ignores = ignore_files(case);
+    let mut sel = BTreeSet::new();
+    let mut missing = false;
+    for f in &args.files {
+        let rel = join_rel(&case.cwd, f);
+        if case.files.contains_key(&rel) {
+            // explicitly named file
+            if args.respect_ignores {
+                let glob_ok = match &args.globs {
+                    None => is_lua_name(&rel),
+                    Some(_) => true,
+                };
+                if !glob_ok || explicit_path_ignored(case, f) {
+                    continue;
+                }
+            }
+            sel.insert(rel);
+            continue;
+        }
+        let prefix = if rel.is_empty() { String::new() } else { format!("{rel}/") };
+        let is_dir = rel.is_empty() || case.files.keys().any(|k| k.starts_with(&prefix)) || case.dirs.iter().any(|d| d == &rel || d.starts_with(&prefix));
+        if !is_dir {
+            missing = true;
+            continue;
+        }
+        'files: for k in case.files.keys() {
+            let Some(inner) = k.strip_prefix(&prefix) else { continue };
+            let comps: Vec<&str> = inner.split('/').collect();
+            // hidden entries below the argument
+            if !args.allow_hidden && comps.iter().any(|c| c.starts_with('.')) {
+                continue;
+            }
+            // directories on the way down, then the file
+            let mut path = rel.clone();
+            for (i, c) in comps.iter().enumerate() {
+                path = if path.is_empty() { c.to_string() } else { format!("{path}/{c}") };
+                let is_last = i + 1 == comps.len();
+                if hierarchy_match(&ignores, &path, !is_last) == Match::Ignore {
+                    continue 'files;
+                }
+            }
+            let from_cwd = rel_to(&case.cwd, k).unwrap_or_else(|| k.clone());
+            let ok = match &args.globs {
+                None => is_lua_name(k),
+                Some(g) => glob_match(g, &from_cwd) == Some(true),
+            };
+            if ok {
+                sel.insert(k.clone());
+            }
+        }
+    }
+    (sel, missing)
+}
+
+const C16_IGNORES: [&str; 8] = ["skip.lua\n", "gen/\n", "/top.lua\n", "sub/inner.lua\n", "*.gen.lua\n", "**/deep.lua\n", "*.gen.lua\n!keep.gen.lua\n", "# nothing\n\n"];
+const C16_FILES: [&str; 20] = [
+    "sub/notes.txt", "gen/readme.md", "a.lua", "top.lua", "skip.lua", "b.luau", "notes.txt", "x.gen.lua", "keep.gen.lua", "sub/inner.lua", "sub/top.lua", "sub/skip.lua", "sub/more/deep.lua", "sub/more/z.lua", "gen/out.lua",
+    "gen/sub/out2.lua", ".hidden.lua", ".config/h.lua", "sub/.secret/s.lua", "deep.lua",
+];
+
+fn gen_c16(t: &mut Tape, labels: &mut Vec<&'static str>) -> Option<CliCase> {
+    let mut case = CliCase::default();
+    case.files.insert(".editorconfig".into(), b"root = true\n".to_vec());
+    let use_globs = t.chance(60);
+    let mut present: Vec<&str> = Vec::new();
+    for (i, f) in C16_FILES.iter().enumerate() {
+        if t.chance(150) {
+            // with --glob: no hidden candidates (known finding KF-C16-glob-overrides-filters)
+            if use_globs && f.split('/').any(|c| c.starts_with('.')) {
+                continue;
+            }
+            case.files.insert(f.to_string(), messy_program(i).into_bytes());
+            present.push(f);
+        }
+    }
+    if present.is_empty() {
+        case.files.insert("a.lua".into(), messy_program(0).into_bytes());
+        present.push("a.lua");
+    }
+    if !use_globs {
+        if t.chance(170) {
+            case.files.insert(".styluaignore".into(), C16_IGNORES[t.pick(C16_IGNORES.len())].as_bytes().to_vec());
+            labels.push("ignore:cwd");
+        }
+        if t.chance(70) {
+            case.files.insert("sub/.styluaignore".into(), ["top.lua\n", "more/\n", "!inner.lua\n", "/skip.lua\n"][t.pick(4)].as_bytes().to_vec());
+            labels.push("ignore:nested");
+        }
+    }
+    let mut argv: Vec<String> = Vec::new();
+    let check = t.chance(100);
+    if check {
+        argv.push("--check".into());
+        argv.push("--output-format".into());
+        argv.push("summary".into());
+        argv.push("--color".into());
+        argv.push("Never".into());
+        labels.push("mode:check-summary");
+    } else {
+        labels.push("mode:write");
+    }
+    let respect = t.chance(100);
+    if respect {
+        argv.push("--respect-ignores".into());
+        labels.push("respect-ignores");
+    }
+    if t.chance(80) {
+        argv.push("--allow-hidden".into());
+        labels.push("allow-hidden");
+    }
+    if use_globs {
+        let sets: [&[&str]; 5] = [&["*.lua"], &["*.txt", "*.luau"], &["sub/**/*.lua"], &["*.lua", "!*.gen.lua"], &["**/*.lua", "!sub/**"]];
+        for g in sets[t.pick(sets.len())] {
+            argv.push("--glob".into());
+            argv.push(g.to_string());
+        }
+        labels.push("globs");
+    }
+    if t.chance(60) {
+        argv.push("--num-threads".into());
+        argv.push((1 + t.pick(8)).to_string());
+    }
+    // arguments
+    let mut files: Vec<String> = Vec::new();
+    match t.pick(5) {
+        0 | 1 => files.push(".".into()),
+        2 => {
+            for d in ["sub", "gen", "sub/more"] {
+                if t.chance(140) && present.iter().any(|p| p.starts_with(&format!("{d}/"))) {
+                    files.push(d.into());
+                }
+            }
+            for f in &present {
+                if !f.contains('/') && t.chance(90) {
+                    files.push(f.to_string());
+                }
+            }
+            labels.push("args:dirs-and-files");
+        }
+        _ => {
+            for f in &present {
+                if t.chance(110) {
+                    // with custom globs and --respect-ignores the README does not say what happens to explicit files
+                    if use_globs && respect {
+                        continue;
+                    }
+                    files.push(f.to_string());
+                }
+            }
+            if t.chance(80) && present.iter().any(|p| p.starts_with("sub/")) {
+                files.push("sub".into());
+                labels.push("args:overlap");
+            }
+            labels.push("args:explicit-files");
+        }
+    }
+    if files.is_empty() {
+        files.push(".".into());
+    }
+    if t.chance(40) {
+        let f0 = files[0].clone();
+        files.push(f0);
+        labels.push("args:repeat");
+    }
+    // argument order is part of the input: rotate / reverse
+    match t.pick(4) {
+        0 => files.reverse(),
+        1 => {
+            let k = t.pick(files.len().max(1));
+            files.rotate_left(k);
+        }
+        _ => {}
+    }
+    if use_globs {
+        argv.push("--".into());
+    }
+    argv.extend(files);
+    case.argv = argv;
+    Some(case)
+}
+
+fn c16_oracle(case: &CliCase, run: &CliRun) -> Verdict {
+    let args = parse_args(&case.argv);
+    let (sel, missing) = selection_model(case, &args);
+    let config = sl::Config::default();
+    if args.check {
+        if let Some(d) = tree_unchanged(run) {
+            return Verdict::Fail(format!("--check changed the file system: {d}"));
+        }
+        let stdout = String::from_utf8_lossy(&run.stdout).to_string();
+        let mut listed: Vec<String> = Vec::new();
+        for l in stdout.lines() {
+            let p = strip_ansi(l);
+            if p.is_empty() || p.starts_with('!') || p.starts_with('✓') || p.starts_with('✕') {
+                continue;
+            }
+            listed.push(join_rel(&case.cwd, &p));
+        }
+        let mut sorted = listed.clone();
+        sorted.sort();
+        let mut dedup = sorted.clone();
+        dedup.dedup();
+        if dedup.len() != sorted.len() {
+            let dup = sorted.windows(2).find(|w| w[0] == w[1]).map(|w| w[0].clone()).unwrap_or_default();
+            return Verdict::Fail(format!("`{dup}` was processed more than once"));
+        }
+        let got: BTreeSet<String> = dedup.into_iter().collect();
+        if got != sel {
+            let extra: Vec<&String> = got.difference(&sel).collect();
+            let lacking: Vec<&String> = sel.difference(&got).collect();
+            return Verdict::Fail(format!("processed files differ from the documented selection: unexpectedly processed {:?}, not processed {:?}", extra, lacking));
+        }
+    } else {
+        for (rel, before) in &run.before {
+            if rel.ends_with('/') {
+                continue;
+            }
+            let Some(after) = run.after.get(rel) else { return Verdict::Fail(format!("`{rel}` disappeared")) };
+            let changed = after.bytes != before.bytes;
+            let should = sel.contains(rel);
+            if changed && !should {
+                return Verdict::Fail(format!("`{rel}` is not selected by the documented rules but was formatted"));
+            }
+            if should {
+                if let FileClass::Differs(q) = classify_file(&before.bytes, config) {
+                    if after.bytes != q.as_bytes() {
+                        return Verdict::Fail(format!("`{rel}` is selected by the documented rules but was not formatted"));
+                    }
+                }
+            }
+        }
+    }
+    let want = if missing {
+        2
+    } else if args.check && !sel.is_empty() {
+        1
+    } else {
+        0
+    };
+    if run.code != Some(want) {
+        return Verdict::Fail(format!("exit status {:?}, expected {want}; stderr: {}", run.code, String::from_utf8_lossy(&run.stderr).lines().next().unwrap_or("")));
+    }
+    let candidates = case.files.keys().filter(|k| !k.ends_with(".styluaignore") && !k.ends_with(".editorconfig")).count();
+    Verdict::Pass { nontrivial: !sel.is_empty() && sel.len() < candidates }
+}
+
+pub static C16: CliProp = CliProp {
+    id: "C16",
+    rule: "E3: trees drawn from 18 candidate paths (.lua, .luau, .txt, hidden files and directories, nested directories), every candidate unformatted so that 'changed' = 'processed'; `.styluaignore` at the working directory and nested, with the pattern forms name, dir/, /anchored, dir/name, *.ext, **/name, !negation, comments; arguments `.`, directories, explicit files, overlaps, repeats; --glob lists (plain, multiple, nested, negated), --respect-ignores, --allow-hidden, --num-threads; write mode or --check --output-format summary. Model (README + gitignore semantics for the stated pattern subset): directory traversal selects files matching the globs (default *.lua / *.luau) that are not hidden (unless --allow-hidden) and not excluded by the ignore files of any ancestor directory (deeper files first; an excluded directory is not entered); an explicitly named file is selected unless --respect-ignores excludes it; every selected file is processed exactly once (summary lists it once / its bytes become the library's output); every other file keeps its bytes; exit status 2 only for a missing argument. Non-trivial: some but not all candidates are selected.",
+    gen_case: gen_c16,
+    oracle: c16_oracle,
+    quick_cases: 16_000,
+    thorough_cases: 300_000,
+    tape_len: 300,
+    assumptions: &[
+        "no .gitignore / .ignore files in the tree; no ignored directory is passed explicitly",
+        "with --glob the tree has no hidden entries and no ignore files (known finding KF-C16-glob-overrides-filters: a whitelisting glob overrides both filters)",
+        "arguments never spell the same file in two ways (known finding KF-C16-path-spelling)",
+        "explicit files are not combined with custom globs plus --respect-ignores (the README does not define that case)",
+    ],
+    extra: None,
+};
+
 pub fn cli_prop(id: &str) -> Option<&'static CliProp> {
     match id {
         "C13" => Some(&C13),
         "C14" => Some(&C14),
+        "C16" => Some(&C16),
+        "C17" => Some(&C17),
+        "C18" => Some(&C18),
         _ => None,
     }
 }
